@@ -1,6 +1,7 @@
-from . import check_combo, check_errors, check_establish, check_framing, check_pool, check_reqwire, check_upgrade, check_url
+from . import check_combo, check_errors, check_establish, check_h2, check_framing, check_pool, check_reqwire, check_upgrade, check_url
 
 REGISTRY = {
+    "C01": check_combo,
     "C02": check_framing,
     "C03": check_reqwire,
     "C04": check_pool,
@@ -10,6 +11,9 @@ REGISTRY = {
     "C09": check_pool,
     "C10": check_combo,
     "C11": check_establish,
+    "C12": check_h2,
+    "C13": check_h2,
+    "C14": check_combo,
     "C15": check_errors,
     "C16": check_combo,
     "C17": check_upgrade,
